@@ -39,6 +39,10 @@ T = {
  "C02": ("Static analysis of necessary conditions of convergence: no returned state update is dropped, the four commit wrappers broadcast the closure's updates on every success path, no Update.Filter decides on snapshot membership without also consulting pending (queued) additions, the update queue is accessed under its lock and is FIFO by construction, the strict ascending insert is used only for the originating state, snapshot flag sets are private copies. Equality of the converged view with the authoritative mailbox for every history is not decided.",
          "Trusts go/ssa, the lock-region analysis (must-hold dataflow per function), VTA call graph.",
          "T-NODROP use analysis + must-pass-through + lock-region (must-hold) dataflow + structural filter rule", "DESIGN.md 4/C02"),
+
+ "C03": ("Static analysis of the batching, transaction-shape and flag-case clauses: every SQL statement reachable from the message commands is valid and binds exactly its placeholders for every batch size (polynomial arity, chunk discipline); each command method runs at most one mutating transaction per path; no error of a mutating transaction call is swallowed; flag lookups use lower-case keys and original-spelling flag strings are never compared case-sensitively; a flag change is announced only after the matching index write. Equality with a reference model, flag semantics per command and message bytes are not decided.",
+         "Trusts go/ssa, SQLite's parser, VTA call graph.",
+         "embedded-SQL arity analysis + path-count rule + error-propagation (T-NODROP) + taint-style flag-case lint + dominance", "DESIGN.md 4/C03"),
 }
 NA_REASON = {}
 checks = []
